@@ -123,6 +123,9 @@ func runC17(p *Program, r *Report) {
 					r.Check(bad == "", "R-C17-6", fnName(m)+"/update-closure:captures-only-params", p.Pos(c.Pos()), "closure captures only method parameters", "the update closure uses state computed before the write lock was taken ("+bad+"): a concurrent update between that read and the locked write is lost")
 					// the closure parses its own data parameter
 					cl := mc.Fn.(*ssa.Function)
+					if fs := funcValuesOf(mc); len(fs) == 1 {
+						cl = fs[0] // a method value: the bound method itself
+					}
 					parsed := false
 					for _, cc := range callsTo(cl, "auth.parseIAM") {
 						for _, rt := range terminalRoots(Origins(callArgs(cc)[0], nil)) {
